@@ -287,7 +287,13 @@ func runProperty(repo, verif, id, tier string, seed int, controls bool) int {
 	if sweep != nil {
 		extra = map[string]interface{}{"neutralisation_sweep": sweep}
 	}
-	if err := writeEvidence(verif, id, tier, seed, wall, results, cfgNames, violations, known, expl, def.Assumptions, ctl, extra); err != nil {
+	evDir := verif
+	if filepath.Clean(repo) != "/repo" {
+		// a scratch copy is being analysed (seeded change, refactoring): the evidence of the
+		// registered checks, which are about /repo, is left alone
+		evDir = filepath.Join(verif, "out", "scratch")
+	}
+	if err := writeEvidence(evDir, id, tier, seed, wall, results, cfgNames, violations, known, expl, def.Assumptions, ctl, extra); err != nil {
 		fmt.Printf("VIOLATION property=%s replay=%s\n", id, "evidence-write-failed")
 		return 1
 	}
